@@ -109,18 +109,45 @@ def gen_robots(rng, ua_names=('wpull', 'foobot', '*')):
     return nl.join(lines) + nl
 
 
+def load_as_fetched(checker, url_info, data):
+    """What fetch_robots_txt does with a 200 answer: the body bytes go through RobotsTxtChecker._read_content."""
+    from wpull.protocol.http.request import Response
+    from wpull.body import Body
+    response = Response(200, 'OK')
+    response.body = Body()
+    response.body.write(data)
+    response.body.seek(0)
+    try:
+        checker._read_content(response, url_info)
+    finally:
+        response.body.close()
+
+
 def stream_match(ctx, n):
     from wpull.robotstxt import RobotsTxtPool
     from wpull.url import URLInfo
+    from wpull.protocol.http.robots import RobotsTxtChecker
+    from wpull.protocol.http.request import Request
     rng = ctx.rng
     reqs, meta = [], []
     for _ in range(n):
         text = gen_robots(rng)
         pool = RobotsTxtPool()
         base = URLInfo.parse('http://a.test/')
-        pool.load_robots_txt(base, text)
+        checker = RobotsTxtChecker(web_client=None, robots_txt_pool=pool)
+        # as the crawler loads it: the BYTES of the response body, through the checker
+        bom = rng.choice(['', '', '\xef\xbb\xbf'])
+        load_as_fetched(checker, base, (bom + text).encode('latin-1', 'replace'))
         parser = pool._parsers[pool.url_info_key(base)]
         rs = parsed_rulesets(parser)
+        if bom:
+            # a byte order mark in front of the file changes nothing (the first group is still a group)
+            pool2 = RobotsTxtPool()
+            load_as_fetched(RobotsTxtChecker(web_client=None, robots_txt_pool=pool2), base, text.encode('latin-1', 'replace'))
+            rs2 = parsed_rulesets(pool2._parsers[pool2.url_info_key(base)])
+            if rs2 != rs:
+                ctx.fail('bom-changes-rules', 'parser', {'stream': 'match', 'robots': bom + text, 'url': 'http://a.test/', 'ua': ''},
+                         'with a UTF-8 byte order mark the file parses to %r, without it to %r' % (rs, rs2))
         for _ in range(4):
             url = 'http://a.test' + gen_path(rng)
             ua = rng.choice(AGENTS)
@@ -128,7 +155,9 @@ def stream_match(ctx, n):
                 ui = URLInfo.parse(url)
             except ValueError:
                 continue
-            real = pool.can_fetch(ui, ua)
+            req = Request(ui.url)
+            req.fields['User-Agent'] = ua
+            real = checker.can_fetch_pool(req)
             t = target_of(ui.url)
             reqs.append('robots match %s %s %s' % (enc(ua.lower()), enc(t), enc_rulesets(rs)))
             meta.append((text, ui.url, ua, real, rs, t))
@@ -148,6 +177,8 @@ def stream_match(ctx, n):
 def ref_parse(text):
     """Canonical-subset tokenizer: groups of User-agent lines followed by Allow/Disallow lines."""
     groups, cur, last_ua = [], None, False
+    if text.startswith('\xef\xbb\xbf'):
+        text = text[3:]
     for line in re.split(r'\r\n|\r|\n', text):
         line = line.split('#', 1)[0].strip()
         if not line:
@@ -300,6 +331,10 @@ def gen_rsite(rng, big=None):
                                                       for _ in range(rng.randint(1, 2))))
             if rng.random() < 0.3:
                 groups.append('User-agent: otherbot\nDisallow: /\n')
+            if rng.random() < 0.35:
+                # rules for a crawler that is named in the MIDDLE of its agent string (Mozilla/5.0 (compatible; foobot/1.0; ...))
+                groups.append('User-agent: foobot\n' + ''.join(rng.choice(['Disallow: /private\n', 'Disallow: /a\n', 'Disallow: /s\n', 'Disallow: /pub\n'])
+                                                                for _ in range(rng.randint(1, 2))))
             rng.shuffle(groups)
             text = '\n'.join(groups)
             if rng.random() < 0.5:
@@ -321,7 +356,9 @@ def gen_rsite(rng, big=None):
                 pages[p] = {'kind': 'redirect', 'location': rng.choice(['/private/x', '/a'])}
             else:
                 pages[p] = {'kind': 'html', 'links': links + (['/nf'] if rng.random() < 0.3 else [])}
-        if text and rng.random() < 0.3:
+        if text and rng.random() < 0.2:
+            text = '\xef\xbb\xbf' + text          # saved with a UTF-8 byte order mark
+        elif text and rng.random() < 0.3:
             # bytes that are not UTF-8 (a Latin-1 comment): the file is still a robots.txt
             text = '# Acc\xe8s r\xe9serv\xe9 aux abonn\xe9s \xff\n' + text
         s.origins[h] = {'robots': {'kind': kind, 'text': text, 'hops': rng.choice([1, 1, 2, 3])}, 'pages': pages}
@@ -704,7 +741,7 @@ def load_corpus(ctx):
 
 
 def gen_cases(rng, n):
-    return [(gen_rsite(rng), rng.choice([1, 1, 2, 3]), rng.randrange(1 << 30), rng.choice([None, None, 'FooBot/1.0', 'wpull-test']))
+    return [(gen_rsite(rng), rng.choice([1, 1, 2, 3]), rng.randrange(1 << 30), rng.choice([None, None, 'FooBot/1.0', 'wpull-test', 'Mozilla/5.0 (compatible; foobot/1.2; +http://a.test/bot)', 'Mozilla/5.0 (X11) FooBot']))
             for _ in range(n)]
 
 
